@@ -34,7 +34,7 @@ SIGS = {
 }
 SHAPES = {1: [(3,)], 2: [(2, 3), (2, 2)], 3: [(1, 2, 3)]}
 LEADS = [(), (), (5,), (5, 7)]  # leading axes in front of the channel axis (the channel axis itself comes from the signature)
-TRIPS = ["vector", "scalar", "concat", "expand", "merge", "pmap", "images", "copy", "jit", "vmap", "flatten"]
+TRIPS = ["vector", "scalar", "concat", "expand", "merge", "expand3", "merge3", "pmap", "images", "copy", "jit", "vmap", "flatten"]
 
 
 def cells(tier, seed):
@@ -248,6 +248,13 @@ def _trip(name, m, geom, jax, jnp, n_lead, rec):
             return None
         ax = n_lead - 1
         return m.expand(ax, 1).merge_axes([ax, ax + 1])
+    if name in ("expand3", "merge3"):
+        # three adjacent axes recombined at once (the last axis of the range is not the second one)
+        if n_lead < 1:
+            return None
+        ax = n_lead - 1
+        e = m.expand(ax, 1).expand(ax, 1)
+        return e.combine_axes((ax, ax + 1, ax + 2)) if name == "expand3" else e.merge_axes([ax, ax + 1, ax + 2])
     if name == "pmap":
         if n_lead < 2:
             return None
